@@ -42,6 +42,11 @@ def gen(args) -> list:
             ns = lo + rnd.randint(0, 2 * NPD)
         elif c < 0.3:
             ns = hi - rnd.randint(0, 2 * NPD)
+        elif c < 0.4:
+            # around the first day of a year of the calendar: offsets then move the local date across a year boundary
+            yy = rnd.randint(cal.min_year + 1, cal.max_year - 1)
+            ns = (LocalDate(yy, 1, 1, cal)._days_since_epoch + rnd.choice([-1, 0, 0, 1])) * NPD + rnd.choice([0, 1, NPD - 1, 1800 * 10**9, NPD - 1800 * 10**9, rnd.randrange(NPD)])
+            ns = min(max(ns, lo), hi)
         elif c < 0.5:
             ns = rnd.randint(lo // NPD, hi // NPD) * NPD + rnd.choice([0, 1, NPD - 1, NPD // 2])
         else:
@@ -82,6 +87,12 @@ def gen(args) -> list:
             return cal, None
 
     zones = [DateTimeZoneProviders.tzdb[z] for z in zone_ids]
+
+    def ref(zone):
+        """The zone underneath the provider's interval cache: the reference for "the zone's offset at this instant" must not
+        share the cached zone's history (the values under test use the cached zone)."""
+        return getattr(zone, "_CachedDateTimeZone__time_zone", zone)
+
     for _ in range(n):
         c = rnd.random()
         cal, v = mk()
@@ -195,7 +206,7 @@ def gen(args) -> list:
             z = rnd.choice(zones)
             cal = rnd.choice(wide)
             i = rinst(cal)
-            iv0 = z.get_zone_interval(i)
+            iv0 = ref(z).get_zone_interval(i)
             if iv0.has_end and rnd.random() < 0.7:
                 # start shortly before a transition and let the clock jump over it on every read
                 try:
@@ -205,7 +216,7 @@ def gen(args) -> list:
             adv = Duration.from_minutes(rnd.choice([0, 20, 45, 90]))
             clock = FakeClock(i, adv)
             zc = ZonedClock(clock, z, cal)
-            iv = z.get_zone_interval(i)
+            iv = ref(z).get_zone_interval(i)
             ev = {"op": "zoned", "inst": proj.t3_instant(i), "cal": cal.id, "zone": z.id, "route": 2,
                   "iv": {"start": t3i(iv._raw_start), "end": t3i(iv._raw_end), "wall": iv.wall_offset.seconds}}
             getter = rnd.choice(["get_current_offset_date_time", "get_current_zoned_date_time"])
@@ -220,7 +231,7 @@ def gen(args) -> list:
             z = rnd.choice(zones)
             cal = rcal()
             i = rinst(cal)
-            iv = z.get_zone_interval(i)
+            iv = ref(z).get_zone_interval(i)
             ivd = {"start": t3i(iv._raw_start), "end": t3i(iv._raw_end), "wall": iv.wall_offset.seconds}
             cz = rnd.random()
             if cz < 0.3:
@@ -232,13 +243,13 @@ def gen(args) -> list:
                     ns = proj.ns_from_t3(t3i(iv._raw_end)) + rnd.choice([-1, 0, 1, rnd.randint(-NPD, NPD), rnd.randint(-4 * 3600 * 10**9, 4 * 3600 * 10**9)])
                     if imin <= ns <= imax:
                         i = Instant._ctor(days=ns // NPD, nano_of_day=ns % NPD)
-                        iv = z.get_zone_interval(i)
+                        iv = ref(z).get_zone_interval(i)
                 offs = {iv.wall_offset.seconds}
                 try:
                     if iv.has_end:
-                        offs.add(z.get_zone_interval(iv.end).wall_offset.seconds)
+                        offs.add(ref(z).get_zone_interval(iv.end).wall_offset.seconds)
                     if iv.has_start:
-                        offs.add(z.get_zone_interval(iv.start - Duration.epsilon).wall_offset.seconds)
+                        offs.add(ref(z).get_zone_interval(iv.start - Duration.epsilon).wall_offset.seconds)
                 except Exception:  # noqa: BLE001
                     pass
                 off = rnd.choice(sorted(offs) + [iv.wall_offset.seconds, rnd.randint(-64800, 64800)])
@@ -248,11 +259,16 @@ def gen(args) -> list:
                 if not (imin <= cand_ns <= imax and cal._min_days <= ld <= cal._max_days and imin <= loc_ns <= imax):
                     continue
                 cand = Instant._ctor(days=cand_ns // NPD, nano_of_day=cand_ns % NPD)
-                ivc = z.get_zone_interval(cand)
+                ivc = ref(z).get_zone_interval(cand)
                 ldt = LocalDate._ctor(days_since_epoch=ld, calendar=cal).at(LocalTime.from_nanoseconds_since_midnight(loc_ns % NPD))
                 ev = {"op": "zoned_ctor", "loc": proj.t3_from_ns(loc_ns), "off": off, "cal": cal.id, "zone": z.id, "cand": proj.t3_from_ns(cand_ns),
                       "iv": {"start": t3i(ivc._raw_start), "end": t3i(ivc._raw_end), "wall": ivc.wall_offset.seconds}}
                 evs.append(result(ev, lambda: ZonedDateTime(local_date_time=ldt, zone=z, offset=Offset.from_seconds(off)), zone=True))
+            elif cz < 0.38:
+                # Instant.in_utc(): the zoned value of the instant in UTC (ISO calendar)
+                ev = {"op": "zoned", "inst": proj.t3_instant(i), "cal": "ISO", "zone": "UTC", "route": 3,
+                      "iv": {"start": [-2000000000, 0, 0], "end": [2000000000, 0, 0], "wall": 0}}
+                evs.append(result(ev, lambda: i.in_utc(), zone=True))
             elif cz < 0.65:
                 ev = {"op": "zoned", "inst": proj.t3_instant(i), "cal": cal.id, "zone": z.id, "iv": ivd}
                 route = rnd.randrange(2)
@@ -272,7 +288,7 @@ def gen(args) -> list:
                 ev = {"op": "zoned_plus", "v": obs(zv), "d": proj.t3_duration(d), "zone": z.id, "iv": ivd}
                 if imin <= ni_ns <= imax:
                     ni = Instant._ctor(days=ni_ns // NPD, nano_of_day=ni_ns % NPD)
-                    iv2 = z.get_zone_interval(ni)
+                    iv2 = ref(z).get_zone_interval(ni)
                     ev["iv"] = {"start": t3i(iv2._raw_start), "end": t3i(iv2._raw_end), "wall": iv2.wall_offset.seconds}
                     # the local result must be a date of the calendar: skip results outside the calendar's days
                     ld = (ni_ns + iv2.wall_offset.seconds * 10**9) // NPD
